@@ -1446,7 +1446,8 @@ class SyncObj(object):
 
             if self.__conf.dynamicMembershipChange:
                 self.__updateClusterConfiguration([node for node in data[3] if node != self.__selfNode])
-            self.__onSetCodeVersion(0)
+            # the enabled code version came with the snapshot: resolve method names for that version
+            self.__onSetCodeVersion(self.__enabledCodeVersion)
         except:
             logger.exception('failed to load full dump')
 
